@@ -922,7 +922,9 @@ func (g *vgen) value(t reflect.Type, depth int, hint string) reflect.Value {
 			return v
 		}
 		if depth > 6 {
-			return v
+			// where the depth bound ends the descent: an empty array (a nil slice is not a value of an array schema:
+			// it would be written as null)
+			return reflect.MakeSlice(t, 0, 0)
 		}
 		n := 1 + g.r.intn(3)
 		if g.edgeText && !g.params && g.r.intn(4) == 0 {
